@@ -11,6 +11,7 @@ PLANS = {
   'C18': _STACKS,
   'C13': [('w_stack', {'stack': 'mux'}, 1.0)],
   'C17': [('w_async', {}, 1.0)],
+  'C15': [('w_kafka', {}, 1.0)],
   'C19': [('w_zk', {}, 1.0)],
   'C16': [('w_shared', {'mode': 'singleton'}, 1.0), ('w_shared', {'mode': 'refcount'}, 1.0)],
   'C03': [('w_bal', {'kind': 'heap'}, 1.0), ('w_bal', {'kind': 'aperture'}, 1.0)],
@@ -29,7 +30,7 @@ PLANS = {
 RUNS = {
   'C01': (1500, 30000), 'C02': (1500, 30000), 'C12': (1500, 30000), 'C14': (1500, 30000),
   'C03': (1500, 30000), 'C04': (1500, 30000), 'C05': (1500, 30000), 'C06': (1200, 20000),
-  'C08': (40, 1500), 'C19': (1500, 30000), 'C16': (2000, 40000), 'C17': (2000, 40000), 'C09': (900, 20000), 'C18': (1200, 20000), 'C13': (1500, 30000), 'C11': (1500, 30000),
+  'C08': (40, 1500), 'C15': (1200, 20000), 'C19': (1500, 30000), 'C16': (2000, 40000), 'C17': (2000, 40000), 'C09': (900, 20000), 'C18': (1200, 20000), 'C13': (1500, 30000), 'C11': (1500, 30000),
   'C07': (1200, 30000),
   'C10': (1500, 40000),
 }
